@@ -726,6 +726,13 @@ fn f_refs_big(ks: &[Kind]) -> bool {
         && count(ks, |k| matches!(k, DeferTick | Batch0)) <= 1
 }
 
+fn f_loop_refs(ks: &[Kind]) -> bool {
+    count(ks, |k| k.is_hoff()) == 1
+        && count(ks, |k| k == Batch0) == 1
+        && count(ks, |k| k == AllIter) == 1
+        && count(ks, |k| k == Src) == 1
+        && count(ks, |k| k == Map) <= 1
+}
 fn f_unary(ks: &[Kind]) -> bool {
     let u = count(ks, |k| matches!(k, Tee1 | Union1));
     (1..=3).contains(&u)
@@ -764,6 +771,8 @@ pub fn families(thorough: bool) -> Vec<Family> {
         v.push(fam("loops", loops_alpha.clone(), 3, 6, 0, f_loops, false));
         v.push(fam("refs", [vec![Src, Sink, Map, Tee2, SrcRef], hoffs.to_vec()].concat(), 2, 4, 2, f_refs, true));
         v.push(fam("unary", unary_alpha.clone(), 3, 5, 0, f_unary, false));
+        v.push(fam("cyc-loops", loops_alpha.clone(), 3, 5, 0, f_loops, true));
+        v.push(fam("loop-refs", vec![Src, Sink, Map, Tee2, Batch0, AllIter, HoffSing0, HoffSing1], 5, 6, 1, f_loop_refs, false));
     } else {
         v.push(fam("cyc-shapes", [base.clone(), vec![DeferTick]].concat(), 1, 5, 0, f_shapes5, true));
         v.push(fam("cyc-classes", with_multi.clone(), 1, 4, 0, f_two_special, true));
